@@ -1823,3 +1823,38 @@ func checkKeyErrorsSurface(c *Ctx, r *Report, rule string) {
 		r.Unk(rule, "key steps", "-", "no read / parse of the configured private key found in the transports")
 	}
 }
+
+// ---- C06/C07: only Open (on its failure path) and Close close the channel ------------------------------------------
+//
+// Channel.Close is not idempotent (known finding G4) and a closed channel's Read answers (nil, nil) for ever. An
+// operation that closes the channel itself when it sees a connection error turns the caller's own `defer d.Close()`
+// into a panic and makes every later read-first operation wait out its timeout instead of failing promptly.
+
+func checkCloseCallers(c *Ctx, r *Report, rule string) {
+	chClose := c.LookupFunc("channel", "Channel", "Close")
+	if chClose == nil {
+		r.Anchor(rule, "(*channel.Channel).Close")
+		return
+	}
+	n := 0
+	for _, fn := range c.LibFns {
+		calls := staticCallsTo(fn, chClose)
+		if len(calls) == 0 {
+			continue
+		}
+		top := fn
+		for top.Parent() != nil {
+			top = top.Parent()
+		}
+		n++
+		construct := "Channel.Close called from " + shortFn(top)
+		if top.Signature.Recv() != nil && (top.Name() == "Open" || top.Name() == "Close") {
+			r.OK(rule, construct, c.Pos(calls[0].Pos()), "an Open (failure path) or Close method")
+		} else {
+			r.Bad(rule, construct, c.Pos(calls[0].Pos()), "the channel is closed by something other than an Open or Close method: Channel.Close is not idempotent, so the caller's own Close panics afterwards (close of closed channel), and a closed channel's Read answers (nil, nil) for ever, so later read-first operations wait out their timeout instead of failing at once")
+		}
+	}
+	if n == 0 {
+		r.Unk(rule, "Channel.Close callers", "-", "no caller of Channel.Close found")
+	}
+}
